@@ -340,6 +340,7 @@ func tryInput(id atree.SlabID, in []byte, out *c19Out) (v *Violation) {
 	_, _ = atree.IsRootOfAnObject(in)
 	_, _ = atree.HasPointers(in)
 	_, _ = atree.HasSizeLimit(in)
+	_, _ = atree.NewSlabIDFromRawBytes(in) // raw identifier bytes of any length
 	before := allocBytes()
 	s, err := atree.DecodeSlab(id, in, cborDecModeDefault, decodeStorable, decodeTypeInfo)
 	after := allocBytes()
